@@ -229,6 +229,23 @@ impl ShardSplitter {
             old_shard, progress.fence_token, next
         );
 
+        if next == SplitPhase::Preparation {
+            // Interrupted between the first progress record and the end of the preparation
+            // phase: (re-)record the split state, which the later phases rely on.
+            self.metadata
+                .start_split(
+                    old_shard,
+                    progress.new_shards.clone(),
+                    progress.split_point.clone(),
+                )
+                .await?;
+            progress.completed_phase = Some(SplitPhase::Preparation);
+            self.persist_progress(&progress).await?;
+            self.run_from_phase(&mut progress, SplitPhase::DualWrite)
+                .await?;
+            return Ok(true);
+        }
+
         self.run_from_phase(&mut progress, next).await?;
         Ok(true)
     }
